@@ -46,6 +46,20 @@ func isEffectFree(key string) bool {
 			return true
 		}
 	}
+	for _, sfx := range []string{".String", ".ShortString", ".Error", ".GoString"} {
+		if strings.HasSuffix(key, sfx) {
+			return true
+		}
+	}
+	// logging / metrics interfaces
+	if i := strings.LastIndex(key, "."); i > 0 {
+		recv := key[:i]
+		for _, w := range []string{"Logger", "logger", "Listener", "listener", "Reporter", "Metrics"} {
+			if strings.Contains(recv, w) {
+				return true
+			}
+		}
+	}
 	return false
 }
 
@@ -92,6 +106,7 @@ func (fr *Frame) call(st *State, v ssa.Value, cc *ssa.CallCommon, in ssa.Instruc
 	}
 	freshResults := func(st *State, nonNil bool) ([]Term, error) {
 		var rs []Term
+		vc.nondet = true
 		for i, rt := range resultTypes() {
 			srt, err := vc.tt.SortOf(rt)
 			if err != nil {
@@ -335,6 +350,7 @@ func bindResults(env *SpecEnv, sig *types.Signature, rs []Term) {
 func (fr *Frame) applyContract(st *State, c *FuncContract, key string, sig *types.Signature, recvT types.Type, args []Term, in ssa.Instruction) ([]Term, error) {
 	vc := fr.vc
 	names, tys := sigNames(sig, recvT)
+	vc.nondet = true
 	if len(names) != len(args) {
 		return nil, fr.unsupportedErr(in, fmt.Errorf("contract call %s: %d names for %d args", key, len(names), len(args)))
 	}
@@ -365,6 +381,17 @@ func (fr *Frame) applyContract(st *State, c *FuncContract, key string, sig *type
 			vc.note("contract error: %s modifies: %v", key, err)
 			st.taint = True
 			vc.havocAll(st)
+		}
+	}
+	if c.ModifiesMaps && !c.ModifiesAll {
+		st.maps = map[string]Term{}
+		st.mbase = vc.freshName("ep")
+	}
+	for _, g := range c.Assigns {
+		if gv := vc.ctx.ghostVars[g]; gv != nil {
+			vc.havocGhostVar(st, gv)
+		} else {
+			vc.note("contract error: %s assigns unknown ghost variable %s", key, g)
 		}
 	}
 	// the callee may allocate
@@ -456,7 +483,7 @@ func (vc *VC) havocModifies(st *State, env *SpecEnv, mods []*Expr) error {
 				hi = vc.toIndex(v.T, v.Ty)
 			}
 			k := vc.tt.Slots(sl.Elem())
-			addRegion(RefAdd(SBase(x.T), Mul(lo, IntLit(k))), sl.Elem(), Sub(hi, lo))
+			addRegion(ElemAddr(SBase(x.T), lo, k), sl.Elem(), Sub(hi, lo))
 			continue
 		}
 		addr, t, err := env.addrOf(m)
@@ -562,7 +589,7 @@ func (fr *Frame) builtin(st *State, b *ssa.Builtin, cc *ssa.CallCommon, args []T
 		fits := vc.Define("fits", Le(newLen, SCap(s)))
 		// in-place branch
 		inPlace := st.clone()
-		dstIn := RefAdd(SBase(s), Mul(SLen(s), IntLit(k)))
+		dstIn := ElemAddr(SBase(s), SLen(s), k)
 		if strSrc {
 			vc.havocRegion(inPlace, elem, dstIn, tl)
 		} else {
@@ -572,7 +599,7 @@ func (fr *Frame) builtin(st *State, b *ssa.Builtin, cc *ssa.CallCommon, args []T
 		re := st.clone()
 		nb := vc.allocObject(re, nil)
 		vc.copyRange(re, elem, nb, SBase(s), SLen(s))
-		dstRe := RefAdd(nb, Mul(SLen(s), IntLit(k)))
+		dstRe := ElemAddr(nb, SLen(s), k)
 		if strSrc {
 			vc.havocRegion(re, elem, dstRe, tl)
 		} else {
@@ -710,7 +737,7 @@ func (fr *Frame) callEffects(ci ssa.CallInstruction, li *loopInfo, ef *effects) 
 				}
 			}
 		case "delete":
-			ef.maps = true
+			fr.addMapEffect(cc.Args[0], li, ef)
 		}
 	case *ssa.Function:
 		fr.funcEffects(callee, ef, 0)
@@ -722,6 +749,12 @@ func (fr *Frame) callEffects(ci ssa.CallInstruction, li *loopInfo, ef *effects) 
 }
 
 func (fr *Frame) contractEffects(c *FuncContract, ef *effects) {
+	for _, g := range c.Assigns {
+		ef.ghostVars[g] = true
+	}
+	if c.ModifiesMaps {
+		ef.maps = true
+	}
 	if c.ModifiesAll {
 		ef.all = true
 		return
